@@ -1,25 +1,26 @@
 #!/bin/sh
-# usage: tools/seed_matrix.sh [tier] [seed-dir-glob]
-# For every confirmed seeded change under /verif/seeded: apply patch.diff to /repo's working tree, run the quick (or given) check of
-# its own property with --no-evidence, record exit code / violation lines in seeded/<dir>/detection.json, revert /repo.
-TIER="${1:-quick}"; GLOB="${2:-*}"
+# usage: tools/seed_matrix.sh [tier] [seed-dir-glob] [check-id-override]
+# For every confirmed seeded change under /verif/seeded: apply patch.diff in a scratch worktree of /repo HEAD (never in /repo itself), run the
+# quick (or given) check of its own property against that tree (SYMX_REPO / PYTHONPATH) with --no-evidence, record exit code / violation
+# lines in seeded/<dir>/detection_<tier>.json, remove the worktree.
+TIER="${1:-quick}"; GLOB="${2:-*}"; OVERRIDE="$3"
 cd /verif
 for d in seeded/$GLOB/; do
   d=${d%/}
   [ -f "$d/patch.diff" ] || continue
-  ID=$(basename "$d" | cut -d- -f1)
-  git -C /repo apply "/verif/$d/patch.diff" || { echo "$d: PATCH DOES NOT APPLY"; continue; }
+  ID=${OVERRIDE:-$(basename "$d" | cut -d- -f1)}
+  WT=/tmp/smx_$$_$(basename "$d")
+  git -C /repo worktree add --detach "$WT" HEAD -q || continue
+  if ! git -C "$WT" apply "/verif/$d/patch.diff"; then echo "$d: PATCH DOES NOT APPLY"; git -C /repo worktree remove --force "$WT"; continue; fi
   T0=$(date +%s)
-  ./.venv/bin/python -m symx.check "$ID" --tier "$TIER" --no-evidence > "$d/check_$TIER.log" 2>&1
+  SYMX_REPO="$WT" PYTHONPATH="$WT/src" ./.venv/bin/python -m symx.check "$ID" --tier "$TIER" --no-evidence > "$d/check_$TIER.log" 2>&1
   RC=$?
   T1=$(date +%s)
   NV=$(grep -c '^VIOLATION' "$d/check_$TIER.log")
-  FIRST=$(grep -m1 'violated obligation' "$d/check_$TIER.log" | cut -c1-300 | sed 's/"/\\"/g')
-  git -C /repo checkout -- .
-  (cd /repo && git clean -fdq src tests >/dev/null 2>&1; git clean -fdqx src/geophires_x -e all_messages_conf.log -e __pycache__ >/dev/null 2>&1)
-  # keep the log small
+  FIRST=$(grep -m1 'violated obligation' "$d/check_$TIER.log" | cut -c1-300 | sed 's/\\/\\\\/g; s/"/\\"/g')
+  git -C /repo worktree remove --force "$WT"
   grep -E '^(VIOLATION|KNOWN-FINDING|C[0-9]+ |HARNESS)|violated obligation' "$d/check_$TIER.log" | cut -c1-400 | head -40 > "$d/check_$TIER.log.tmp"; mv "$d/check_$TIER.log.tmp" "$d/check_$TIER.log"
-  echo "{\"check\": \"./.venv/bin/python -m symx.check $ID --tier $TIER\", \"exit\": $RC, \"violation_lines\": $NV, \"wall_s\": $((T1-T0)), \"first_violated_obligation\": \"$FIRST\", \"repo_head\": \"$(git -C /repo rev-parse --short HEAD)\"}" > "$d/detection_$TIER.json"
-  echo "$d exit=$RC violations=$NV wall=$((T1-T0))s"
+  SUF=""; [ -n "$OVERRIDE" ] && SUF="_by_$OVERRIDE"
+  echo "{\"check\": \"./.venv/bin/python -m symx.check $ID --tier $TIER\", \"exit\": $RC, \"violation_lines\": $NV, \"wall_s\": $((T1-T0)), \"first_violated_obligation\": \"$FIRST\", \"repo_head\": \"$(git -C /repo rev-parse --short HEAD)\"}" > "$d/detection_$TIER$SUF.json"
+  echo "$d [$ID] exit=$RC violations=$NV wall=$((T1-T0))s"
 done
-git -C /repo status --short
